@@ -64,3 +64,37 @@ Proof.
   intros H E. unfold py_nth, norm_idx. destruct (Z.ltb_spec i 0); [lia|].
   destruct (Z.ltb_spec i 0); [lia|]. destruct (Z.leb_spec (len l) i); [lia|]. cbn [orb bind]. now rewrite E.
 Qed.
+
+(* list.pop() and l[i] = x *)
+Definition py_pop {A} (l : list A) : res (A * list A) :=
+  match rev l with [] => Err IndexError | x :: r => Ok (x, rev r) end.
+Definition py_set {A} (l : list A) (i : Z) (x : A) : res (list A) :=
+  do j <- norm_idx l i; Ok (firstn j l ++ x :: skipn (S j) l).
+
+(* ---- an end-topped Python stack [rev s] seen through the head-topped list s ---- *)
+Lemma py_pop_rev {A} (x : A) s : py_pop (rev (x :: s)) = Ok (x, rev s).
+Proof. unfold py_pop. rewrite rev_involutive. reflexivity. Qed.
+Lemma py_pop_nil {A} : py_pop (@nil A) = Err IndexError.
+Proof. reflexivity. Qed.
+Lemma app_rev_cons {A} (x : A) s : rev s ++ [x] = rev (x :: s).
+Proof. reflexivity. Qed.
+Lemma norm_idx_rev_neg {A} (s : list A) k : 0 < k <= len s ->
+  norm_idx (rev s) (- k) = Ok (Z.to_nat (len s - k)).
+Proof.
+  intros H. unfold norm_idx. rewrite len_rev. destruct (Z.ltb_spec (- k) 0); [|lia].
+  destruct (Z.ltb_spec (- k + len s) 0); [lia|]. destruct (Z.leb_spec (len s) (- k + len s)); [lia|].
+  cbn [orb]. f_equal. f_equal. lia.
+Qed.
+(* stack[-k] is the (k-1)-th element from the top *)
+Lemma py_nth_rev {A} (s : list A) k x : 0 < k -> nth_error s (Z.to_nat (k - 1)) = Some x ->
+  py_nth (rev s) (- k) = Ok x.
+Proof.
+  intros Hk E. assert (L : (Z.to_nat (k - 1) < length s)%nat) by (apply nth_error_Some; congruence).
+  unfold py_nth. rewrite norm_idx_rev_neg by (unfold len; lia). cbn [bind].
+  assert (E2 : nth_error (rev s) (Z.to_nat (len s - k)) = Some x).
+  { rewrite nth_error_nth' with (d := x) by (rewrite rev_length; unfold len; lia).
+    rewrite rev_nth by (unfold len; lia). f_equal.
+    replace (length s - S (Z.to_nat (len s - k)))%nat with (Z.to_nat (k - 1)) by (unfold len; lia).
+    apply nth_error_nth. exact E. }
+  now rewrite E2.
+Qed.
